@@ -353,10 +353,6 @@ MUTANTS = {
                                      "return response[2] == 1", "return True"),
     "commit-writes-old-pin": _m(F, "commit_change", "file.write(self._new_pin)",
                                 "file.write(self._pin)"),
-    "abort-keeps-new-pin-in-use": _m(F, "abort_change", "self._new_pin = None",
-                                     "self._pin = self._new_pin or self._pin"),
-    "commit-ignores-write-error": _m(F, "commit_change",
-                                     'self._error("Error commiting: %s" % format(e))', "pass"),
 }
 
 if __name__ == "__main__":
